@@ -286,6 +286,60 @@ def config_inventory(
     cover("built")
 
 
+NS_PCS = [1, 8, 23, 24, 25, 47]
+NS_BW = [100, 150, 37]
+
+
+def node_set_inventory(npi: int, bwi: int, include_router: bool, start_i: int):
+    """A scenario whose network section declares an `office-lan` node set (docs/source/node_sets.rst): the loader builds
+    exactly the declared number of hosts with the declared addresses, enough 24-port switches (a core switch when more
+    than one edge switch is needed), every link of the set carries the declared bandwidth, and the hosts of the set can
+    reach each other (and their gateway when a router is included)."""
+    from primaite.game.game import PrimaiteGame
+
+    assume(all_of(rng(npi, 0, len(NS_PCS) - 1), rng(bwi, 0, len(NS_BW) - 1), rng(start_i, 0, 1)))
+    n = pick(NS_PCS, npi)
+    bw = pick(NS_BW, bwi)
+    start = pick([10, 100], start_i)
+    include_router = True if include_router else False
+    with concrete():
+        quiet()
+        cfg = mini_scenario("switched", with_green=False, with_red=False)
+        cfg["simulation"]["network"]["node_sets"] = [
+            {"type": "office-lan", "lan_name": "CORP", "subnet_base": 7, "pcs_ip_block_start": start, "num_pcs": n, "include_router": include_router, "bandwidth": bw}
+        ]
+        try:
+            game = PrimaiteGame.from_config(copy.deepcopy(cfg))
+        except Exception as e:
+            fail(f"from_config raised {type(e).__name__}: {str(e)[:200]} for an office-lan node set with {n} pcs")
+        net = game.simulation.network
+        by_name = {x.config.hostname: x for x in net.nodes.values()}
+        pcs = [by_name.get(f"pc_{i}_CORP") for i in range(1, n + 1)]
+        check(all(p is not None for p in pcs), lambda: f"office-lan with num_pcs={n}: hosts missing {[i for i, p in enumerate(pcs, 1) if p is None][:5]}")
+        check(f"pc_{n + 1}_CORP" not in by_name, "more hosts built than declared")
+        for i, p in enumerate(pcs, 1):
+            check(str(p.network_interface[1].ip_address) == f"192.168.7.{i + start - 1}", lambda: f"pc_{i}_CORP has address {p.network_interface[1].ip_address}")
+            check(p.operating_state.name == "ON", f"pc_{i}_CORP is not ON")
+        n_edge = -(-n // 23)
+        edges = [k for k in by_name if k.startswith("switch_edge_") and k.endswith("_CORP")]
+        check(len(edges) == n_edge, lambda: f"{len(edges)} edge switches for {n} hosts, {n_edge} needed")
+        check(("switch_core_CORP" in by_name) == (n_edge > 1), "core switch present/absent contrary to the number of edge switches")
+        check(("router_CORP" in by_name) == include_router, "router present/absent contrary to include_router")
+        set_nodes = set(x for x in by_name if x.endswith("_CORP"))
+        for l in net.links.values():
+            a, b = l.endpoint_a.parent.config.hostname, l.endpoint_b.parent.config.hostname
+            if a in set_nodes or b in set_nodes:
+                check(float(l.bandwidth) == float(bw), lambda: f"link {a}<->{b} of the node set carries {l.bandwidth} Mbps, the scenario declares {bw}")
+                check(l.is_up, lambda: f"link {a}<->{b} of the node set is not up")
+        if n >= 2:
+            ok = pcs[0].ping(str(pcs[-1].network_interface[1].ip_address), pings=1) or pcs[0].ping(str(pcs[-1].network_interface[1].ip_address), pings=1)
+            check(ok, lambda: f"pc_1 cannot reach pc_{n} of the same office LAN")
+        if include_router:
+            ok = pcs[-1].ping("192.168.7.1", pings=1) or pcs[-1].ping("192.168.7.1", pings=1)
+            check(ok, lambda: f"pc_{n} cannot reach the LAN's router / default gateway 192.168.7.1 ({n_edge} edge switches)")
+    cover("node_set_built")
+
+
 FW_LISTS = ["internal_inbound_acl", "internal_outbound_acl", "dmz_inbound_acl", "dmz_outbound_acl", "external_inbound_acl", "external_outbound_acl"]
 
 
@@ -393,6 +447,13 @@ HARNESSES = {
         "thorough": [{"fixed": {"b_users": u, "b_files": f, "b_dnsopt": f, "b_off": o, "b_nmne": o, "b_prev": p, "perm": p}, "timeout": 1500} for u in (False, True) for f in (False, True) for o in (False, True) for p in (False, True)],
         "cover": ["built", "perm"],
         "bounds": {"quick": "13 presence bits (6 coupled per job; another scenario with the opposite NMNE declaration loaded before), 3 ACL positions (0, 11, 23), 3 durations, 2 bandwidths (one fractional), key-order permutation", "thorough": "all 2^11 presence combinations of the first 11 bits, the dns-client option bit coupled to the files bit"},
+    },
+    "node_set_inventory": {
+        "fn": node_set_inventory,
+        "quick": [{"fixed": {}, "timeout": 280}],
+        "thorough": [{"fixed": {}, "timeout": 600}],
+        "cover": ["node_set_built"],
+        "bounds": "office-lan node set with 1 / 8 / 23 / 24 / 25 / 47 hosts (one, two and three edge switches), 3 bandwidths, 2 address block starts, with / without router",
     },
     "firewall_inventory": {
         "fn": firewall_inventory,
